@@ -105,3 +105,8 @@ pub fn multiply_sub_plain(plain: &Plaintext, context_data: &ContextData, destina
         }
     }
 }
+
+// Verification hook (add-only): compiled only under `cargo kani` or `--cfg heathcliff_verif`.
+#[cfg(any(kani, heathcliff_verif))]
+#[path = "/verif/incrate/util_scaling_variant_v.rs"]
+pub(crate) mod verif_v;
